@@ -137,32 +137,36 @@ Proof.
 Qed.
 
 (* termination: one unit of fuel per variant always suffices *)
-Lemma clump_loop_fuel p1 kb pass :
-  (forall iv c, pass iv c <> Err E_Timeout) ->
+Lemma clump_loop_fuel {G} p1 kb (load : svar -> res G) pass :
+  (forall iv, load iv <> Err E_Timeout) ->
+  (forall gi iv c, pass gi iv c <> Err E_Timeout) ->
   forall fuel stats, (length stats <= fuel)%nat ->
-  clump_loop fuel p1 kb pass stats <> Err E_Timeout.
+  clump_loop fuel p1 kb load pass stats <> Err E_Timeout.
 Proof.
-  intros HP fuel. induction fuel as [|f IH]; intros stats Hl.
+  intros HL HP fuel. induction fuel as [|f IH]; intros stats Hl.
   - destruct stats; [|cbn in Hl; lia]. cbn. discriminate.
   - cbn [clump_loop]. destruct (next_index p1 stats) as [iv|] eqn:N; [|discriminate].
-    destruct (filter_res (pass iv) (query_window iv kb stats)) as [ms|e] eqn:F; cbn [bind].
+    destruct (load iv) as [gi|e] eqn:LD; cbn [bind].
+    2:{ intro K. inversion K; subst. exact (HL iv LD). }
+    destruct (filter_res (pass gi iv) (query_window iv kb stats)) as [ms|e] eqn:F; cbn [bind].
     + pose proof (remove_shrinks iv ms stats (next_index_in _ _ _ N)) as Hs.
       specialize (IH (remove_vars (ms ++ [iv]) stats)).
-      destruct (clump_loop f p1 kb pass (remove_vars (ms ++ [iv]) stats)) as [rest|e] eqn:R; cbn [bind].
+      destruct (clump_loop f p1 kb load pass (remove_vars (ms ++ [iv]) stats)) as [rest|e] eqn:R; cbn [bind].
       * discriminate.
       * intro K. inversion K; subst. apply IH; [lia|reflexivity].
-    + intro K. inversion K; subst. destruct (filter_res_err _ _ _ F) as (c & _ & Hc). exact (HP iv c Hc).
+    + intro K. inversion K; subst. destruct (filter_res_err _ _ _ F) as (c & _ & Hc). exact (HP gi iv c Hc).
 Qed.
 
 Lemma clump_terminates_total p1 kb (pb : svar -> svar -> bool) stats :
-  exists cl, clump_loop (length stats) p1 kb (fun iv c => Ok (pb iv c)) stats = Ok cl.
+  exists cl, clump_loop_total (length stats) p1 kb pb stats = Ok cl.
 Proof.
+  unfold clump_loop_total.
   assert (forall fuel st, (length st <= fuel)%nat ->
-          exists cl, clump_loop fuel p1 kb (fun iv c => Ok (pb iv c)) st = Ok cl) as G.
+          exists cl, clump_loop fuel p1 kb (fun _ => Ok tt) (fun _ iv c => Ok (pb iv c)) st = Ok cl) as G.
   { induction fuel as [|f IH]; intros st Hl.
     - destruct st; [|cbn in Hl; lia]. exists []. reflexivity.
     - cbn [clump_loop]. destruct (next_index p1 st) as [iv|] eqn:N; [|exists []; reflexivity].
-      rewrite filter_res_total. cbn [bind].
+      cbn [bind]. rewrite filter_res_total. cbn [bind].
       pose proof (remove_shrinks iv (filter (pb iv) (query_window iv kb st)) st (next_index_in _ _ _ N)) as Hs.
       destruct (IH (remove_vars (filter (pb iv) (query_window iv kb st) ++ [iv]) st)) as [rest R]; [lia|].
       rewrite R. cbn [bind]. eexists. reflexivity. }
@@ -193,15 +197,16 @@ Proof.
 Qed.
 
 Lemma clump_loop_greedy p1 kb pb : forall fuel stats cl,
-  clump_loop fuel p1 kb (fun iv c => Ok (pb iv c)) stats = Ok cl -> greedy p1 kb pb stats cl.
+  clump_loop_total fuel p1 kb pb stats = Ok cl -> greedy p1 kb pb stats cl.
 Proof.
-  induction fuel as [|f IH]; intros stats cl H.
+  unfold clump_loop_total. induction fuel as [|f IH]; intros stats cl H.
   - cbn in H. destruct (next_index p1 stats) eqn:N; [discriminate|]. inversion H; subst.
     apply greedy_stop. apply next_index_none. exact N.
   - cbn [clump_loop] in H. destruct (next_index p1 stats) as [iv|] eqn:N.
-    + rewrite filter_res_total in H. cbn [bind] in H.
+    + cbn [bind] in H. rewrite filter_res_total in H. cbn [bind] in H.
       unfold query_window in H. rewrite filter_filter in H. fold (members kb pb iv stats) in H.
-      destruct (clump_loop f p1 kb (fun iv c => Ok (pb iv c)) (remove_vars (members kb pb iv stats ++ [iv]) stats))
+      destruct (clump_loop f p1 kb (fun _ => Ok tt) (fun _ iv c => Ok (pb iv c))
+                  (remove_vars (members kb pb iv stats ++ [iv]) stats))
         as [rest|e] eqn:R; cbn [bind] in H; [|discriminate].
       inversion H; subst.
       destruct (next_index_some _ _ _ N) as (pre & post & E & El & Hmin & Hpre).
@@ -439,9 +444,8 @@ Proof.
   destruct (match k_snps k with Some a => existsb snp_calls_bad (gs_vars a) | None => false end); [discriminate|].
   apply bind_not.
   - unfold merged_gts. destruct (k_snps k), (k_strs k); discriminate.
-  - intro gts. apply clump_loop_fuel; [|apply le_n].
-    intros iv c. apply bind_not; [apply load_variant_not_timeout|]. intro gi.
-    apply bind_not; [apply load_variant_not_timeout|]. intro gc.
+  - intro gts. apply clump_loop_fuel; [apply load_variant_not_timeout| |apply le_n].
+    intros gi iv c. apply bind_not; [apply load_variant_not_timeout|]. intro gc.
     unfold pearson_oracle. cbn [bind]. discriminate.
 Qed.
 
